@@ -12,9 +12,13 @@ SHARD = 40
 
 def gen(tier, seed):
     rnd = random.Random(seed)
-    P, M = (3, 3) if tier == "quick" else (5, 4)
+    P, M = (3, 3) if tier == "quick" else (4, 3)
     vecs = shape_vectors(P, M)
-    nrand = 60 if tier == "quick" else 1500
+    if tier != "quick":
+        # degree 5 and four interior knots: a random third of the exhaustive family (the full one is 2834 shapes)
+        vecs += [v for v in shape_vectors(5, 4, pmin=5) + [w for w in shape_vectors(4, 4) if len(w["mults"]) == 4]
+                 if rnd.random() < 0.12]
+    nrand = 60 if tier == "quick" else 600
     vecs += [random_vector(rnd, pmax=4 if tier == "quick" else 5, big=(i % 3 == 0)) for i in range(nrand)]
     cases = []
     for v in vecs:
